@@ -154,7 +154,7 @@ func init() {
 	// C03 — result blocks mirror the definitions in the source
 	var a3 []gen.Sym
 	for _, t := range []string{"a", "b"} {
-		for _, n := range []string{"", ` "n"`, ` "m"`, ` ""`} {
+		for _, n := range []string{"", ` "n"`, ` "m"`, ` ""`, ` "n."`} {
 			s := "def " + t + n + " {"
 			a3 = append(a3, gen.Sym{Top: s, In: s, Delta: 1})
 		}
@@ -166,11 +166,11 @@ func init() {
 		}
 	}
 	a3 = append(a3, both("var x = 1"), both(`var y = "v"`), inOnly("print TYPE"), inOnly("print NAME"), inOnly("print x"),
-		inOnly("a = 1"), both("print 1/0"))
+		inOnly("a = 1"), both("print 1/0"), topOnly("bind a -> struct"), topOnly("bind b:all -> slice"))
 	registerSeq(seqSpec{
 		id: "C03",
-		rule: "explicit enumeration of all statement sequences up to length L (quick 5, thorough 6) over a 24-symbol alphabet: def of 2 types x 4 name forms (none, two names, empty), close, field assignments (2 fields x 4 values incl. re-assignment and self-reference), " +
-			"variables, TYPE/NAME/field reads, a field named like a child type, a runtime error; nesting <=3. The []Block returned by the real Interpret (order, Type, Name, Fields with dynamic types, children keyed type / type.name, no variables), " +
+		rule: "explicit enumeration of all statement sequences up to length L (quick 5, thorough 6) over a 28-symbol alphabet: def of 2 types x 5 name forms (none, two names, empty, a name ending in a dot), close, field assignments (2 fields x 4 values incl. re-assignment and self-reference), " +
+			"variables, TYPE/NAME/field reads, a field named like a child type, a runtime error, two bind statements (which must not disturb the result); nesting <=3. The []Block returned by the real Interpret (order, Type, Name, Fields with dynamic types, children keyed type / type.name, no variables), " +
 			"the duplicate-child runtime error and the blocks returned alongside a runtime error are compared with the reference evaluator.",
 		sub: newRefSub("c03.seq"), alpha: a3,
 		extra:    func(c *fw.Ctx, do func(string)) { deepFieldPrograms(5, do) },
